@@ -28,8 +28,8 @@ PLANTS = [
      "                        my_values.append(cost_matrix[i][j][2])",
      "                        my_values.append(cost_matrix[i][j][1])"),
     ("parcons-flag-stays-true", "C06", "corankco/algorithms/parcons/parcons.py",
-     "                    res.extend(cons_ext)\n                    optimal = False",
-     "                    res.extend(cons_ext)"),
+     "set_current_elements))\n                    optimal = False",
+     "set_current_elements))"),
     ("cost-table-mirror-tied", "C04", "corankco/algorithms/pairwisebasedalgorithm.py",
      "            matrix[elem2][elem1][2] = cost_elem1_elem2[2]",
      "            matrix[elem2][elem1][2] = cost_elem1_elem2[0]"),
